@@ -176,6 +176,8 @@ def selected(co) -> bool:
     dialect metaclass and of Dialect; in generator.py the module-level functions (dispatch-table construction,
     whatever they are called) and Generator.__init__. Chosen structurally, so renames / extractions are followed."""
     fn = co.co_filename
+    if co.co_name == "<module>" and fn in ("/repo/sqlglot/optimizer/optimizer.py", "/repo/sqlglot/optimizer/__init__.py"):
+        return True  # top-level statements of lazily imported modules: another thread may see them half-initialised
     if fn not in SEL_FILES:
         return False
     qn = co.co_qualname
@@ -229,6 +231,8 @@ def run_in_child(bodies: list[t.Callable[[], t.Any]], schedule: dict[int, int], 
         def counting_exec(self, module):
             if module.__name__.startswith("sqlglot."):
                 exec_calls[module.__name__] = exec_calls.get(module.__name__, 0) + 1
+                if SCHED is not None and hasattr(threading.current_thread(), "vt_id"):
+                    SCHED.point(f"import:exec_module:{module.__name__}")  # module is in sys.modules but its body has not run yet
             return orig_exec(self, module)
 
         mach.SourceFileLoader.exec_module = counting_exec
